@@ -17,9 +17,9 @@ from __future__ import annotations
 import z3
 from lark import Token
 
-from pyvc.interp import explore, NativeAbs, AbsSeq, AbsAcc, LoopContract
+from pyvc.interp import explore, NativeAbs, AbsSeq, AbsCat, AbsAcc, LoopContract
 from pyvc.loader import Loader
-from pyvc.values import Obj, Tpl, Atom, Unsupported
+from pyvc.values import Obj, Tpl, Atom, SInt, Unsupported
 from pyvc.vc import Check
 from pyvc import replay
 from spec import ir
@@ -49,6 +49,10 @@ MUTANTS = [
      "old": "            read_op = op.il_init_var()\n            if not read_op:\n                continue\n            res += read_op + \"\\n\"", "new": "            read_op = op.il_init_var()\n            if not read_op:\n                continue\n            res += read_op + \"\\n\" + read_op + \"\\n\""},
     {"name": "emit_exec_block: initialiser obtained but not appended", "file": "rzilcompiler/Transformer/RZILTransformer.py",
      "old": "            exec_op = op.il_init_var()\n            if not exec_op:\n                continue\n            res += exec_op + \"\\n\"", "new": "            exec_op = op.il_init_var()\n            if not exec_op:\n                continue\n            res += \"\\n\""},
+    {"name": "emit_stmt_blocks: operands of a statement ordered by name instead of creation number", "file": "rzilcompiler/Transformer/RZILTransformer.py",
+     "old": "key=lambda x: x.num_id", "new": "key=lambda x: x.name"},
+    {"name": "emit_stmt_blocks: an already declared operand ends the statement's operand loop", "file": "rzilcompiler/Transformer/RZILTransformer.py",
+     "old": "                if not op_init:\n                    continue\n                res += op_init", "new": "                if not op_init:\n                    break\n                res += op_init"},
     {"name": "emit_write_block: hybrids skipped", "file": "rzilcompiler/Transformer/RZILTransformer.py",
      "old": "                hybrid_init = op.il_init_var()\n                if not hybrid_init:\n                    continue\n                res += hybrid_init + \"\\n\"\n                continue", "new": "                continue"},
     {"name": "Sequence.il_write: first effect referenced twice", "file": "rzilcompiler/Transformer/Effects/Sequence.py",
@@ -197,7 +201,7 @@ def gen_emit_loops(loader, check, replay_on=True):
         for p in ex.paths:
             check.ob(f"{fn}#emit.base: empty table yields res0 + header", "empty", p.ctx.pc, p.outcome == "return" and p.value == "RES0" + header, detail=repr(p.value))
 
-    # emit_stmt_blocks: per effect, its exec operands (sorted by num_id) then the effect; concrete shapes of the statement list
+    # emit_stmt_blocks: per effect, its exec operands (sorted by num_id) then the effect; ground shapes of the statement list first
     check.under_contract(loader, T.methods["emit_stmt_blocks"], irkit.C(loader, "Effect").methods["get_exec_op_list"])
     for shape in ("1 effect, 0 exec ops", "1 effect, 2 exec ops", "2 effects sharing an exec op", "effect with empty init (Empty)",
                   "1 effect, exec ops numbered 9 and 10", "1 effect, exec ops numbered 99 and 100", "2 effects that print identically"):
@@ -278,7 +282,192 @@ def gen_emit_loops(loader, check, replay_on=True):
                 t = emit.as_tpl(p.value)
                 tags = [a.tag for a in t.atoms() if a.kind == "init"]
                 check.ob("emit_stmt_blocks#emit.every-initialiser-once-operands-before-their-effect", shape, p.ctx.pc, tags == p.state["order"], detail=str(tags))
-    check.bounded.append("emit_stmt_blocks: seven concrete statement-list shapes (the per-table loops of the other three emit functions are unbounded)")
+    # any table, any number of operands per statement: nested fold invariants (the seven shapes above stay as ground instances)
+    gen_stmt_blocks_unbounded(loader, check)
+
+
+# ------------------------------------------------------------------------------------------ emit_stmt_blocks, any table
+class StmtBuildLoop(LoopContract):
+    """first loop of emit_stmt_blocks   for effect in holder.write_ops.values():
+    invariant  statements == [ sorted(execlist(e_i), key=num_id) ++ [e_i]  for e_i in prefix ]   (same order, nothing else)"""
+    name = "emit_stmt_blocks.collect"
+
+    def __init__(self, loader):
+        self.loader = loader
+        self.marker = AbsSeq("statements_prefix")
+
+    def element_kinds(self):
+        return ["effect", "hybrid"]
+
+    def check_entry(self, it, env, seq):
+        self.oblige(it, "emit_stmt_blocks#loop.base: the statement list starts empty", "", env.vars.get("statements") == [])
+        self.res0 = env.vars.get("res")
+
+    def havoc_prefix(self, it, env, seq):
+        env.vars["statements"] = [self.marker]
+
+    def make_element(self, it, kind, seq):
+        return mk_stmt_effect(it, kind, "e_k", self.loader, None)
+
+    def check_step(self, it, env, seq, kind, elem, broke):
+        st = env.vars.get("statements")
+        inst = f"element={kind}"
+        shape = isinstance(st, list) and len(st) == 2 and st[0] is self.marker and isinstance(st[1], AbsCat) and not broke
+        self.oblige(it, "emit_stmt_blocks#loop.step: exactly one statement is appended per table entry, earlier ones untouched", inst, bool(shape), detail=repr(st))
+        if not shape:
+            return
+        cat = st[1]
+        src = cat.base.meta.get("sorted_of")
+        self.oblige(it, "emit_stmt_blocks#loop.step: the statement is the effect's own executable operand list, sorted, followed by the effect itself", inst,
+                    src is elem.ghost.get("execlist") and len(cat.tail) == 1 and cat.tail[0] is elem and not cat.base.meta.get("reverse"),
+                    detail=f"base {cat.base.name} tail {cat.tail!r}")
+        key = cat.base.meta.get("sorted_key")
+        nid = SInt(z3.Int("probe_num_id"))
+        probe = mk_abstract_op(it, "exec", "probe", self.loader)
+        probe.fields["num_id"] = nid
+        r = it.call(key, [probe], {}) if key is not None else None
+        self.oblige(it, "emit_stmt_blocks#loop.step: operands are ordered by their creation number (an integer)", inst,
+                    (r.t == nid.t) if isinstance(r, SInt) else False, detail=f"key(probe) = {r!r}")
+        self.oblige(it, "emit_stmt_blocks#loop.step: collecting the operands obtains the list once and declares nothing yet", inst,
+                    elem.ghost.get("nexec", 0) == 1 and elem.ghost.get("ninit", 0) == 0, detail=f"get_exec_op_list x{elem.ghost.get('nexec', 0)}, il_init_var x{elem.ghost.get('ninit', 0)}")
+        self.oblige(it, "emit_stmt_blocks#loop.step: nothing is emitted while collecting", inst, env.vars.get("res") == self.res0, detail=repr(env.vars.get("res")))
+
+    def havoc_exit(self, it, env, seq):
+        env.vars["statements"] = AbsSeq("statements", StmtLoop(self.loader), length=seq.length)
+
+
+def mk_stmt_effect(it, kind, label, loader, inner):
+    e = mk_abstract_op(it, kind, label, loader)
+    lst = AbsSeq(f"execlist({label})", inner)
+    it.ctx.assume(lst.length >= 0)
+    e.ghost["execlist"] = lst
+
+    def exec_stub(it_, obj, args, kwargs):
+        obj.ghost["nexec"] = obj.ghost.get("nexec", 0) + 1
+        return lst
+    e.stubs["get_exec_op_list"] = exec_stub
+    return e
+
+
+class StmtOpLoop(LoopContract):
+    """inner loop   for op in stmt[:-1]:   invariant  res == res_at_entry ++ concat(init(op) + NL for op in prefix if init(op) != '')"""
+    name = "emit_stmt_blocks.operands"
+
+    def __init__(self, loader):
+        self.loader = loader
+        self.entry = None
+
+    def element_kinds(self):
+        return ["exec"]
+
+    def check_entry(self, it, env, seq):
+        self.entry = env.vars.get("res")
+
+    def havoc_prefix(self, it, env, seq):
+        env.vars["res"] = Tpl([Atom("res_prefix", 0, kind="prefix")])
+
+    def make_element(self, it, kind, seq):
+        return mk_abstract_op(it, "exec", "op_j", self.loader)
+
+    def check_step(self, it, env, seq, kind, elem, broke):
+        res = env.vars.get("res")
+        ninit = elem.ghost.get("ninit", 0)
+        parts = res.parts if isinstance(res, Tpl) else None
+        ok_pref = parts is not None and isinstance(parts[0], Atom) and parts[0].kind == "prefix" and not broke
+        tail = parts[1:] if ok_pref else None
+        ne = elem.ghost["nonempty"]
+        appended = ok_pref and len(tail) == 2 and isinstance(tail[0], Atom) and tail[0].tag == "op_j" and tail[0].kind == "init" and tail[1] == "\n"
+        unchanged = ok_pref and tail == []
+        inst = "operand=any"
+        self.oblige(it, "emit_stmt_blocks#loop.step(operands): initialiser obtained exactly once", inst, ninit == 1, detail=f"il_init_var() called {ninit} times")
+        self.oblige(it, "emit_stmt_blocks#loop.step(operands): a non-empty initialiser is appended exactly once followed by a newline", inst,
+                    z3.Implies(ne, z3.BoolVal(bool(appended))), detail=f"tail {tail}")
+        self.oblige(it, "emit_stmt_blocks#loop.step(operands): an already declared operand (empty initialiser) appends nothing", inst,
+                    z3.Implies(z3.Not(ne), z3.BoolVal(bool(unchanged))), detail=f"tail {tail}")
+
+    def havoc_exit(self, it, env, seq):
+        entry = emit.as_tpl(self.entry) if self.entry is not None else Tpl([])
+        env.vars["res"] = Tpl(list(entry.parts) + [Atom("operands_all", 0, kind="fold", meta={"seq": seq})])
+
+
+class StmtLoop(LoopContract):
+    """second loop   for stmt in statements:   invariant  res == res0 ++ concat(block(s) for s in prefix)  with
+    block(s) = '' if init(effect(s)) == '' else  comment(effect) ++ fold(operands(s)) ++ init(effect) ++ NL"""
+    name = "emit_stmt_blocks.emit"
+
+    def __init__(self, loader):
+        self.loader = loader
+
+    def element_kinds(self):
+        return ["effect", "hybrid"]
+
+    def check_entry(self, it, env, seq):
+        self.oblige(it, "emit_stmt_blocks#loop.base: emission starts from the text passed in", "", env.vars.get("res") == "RES0", detail=repr(env.vars.get("res")))
+
+    def havoc_prefix(self, it, env, seq):
+        env.vars["res"] = Tpl([Atom("res_prefix", 0, kind="prefix")])
+
+    def make_element(self, it, kind, seq):
+        self.inner = StmtOpLoop(self.loader)
+        self.eff = mk_stmt_effect(it, kind, "e_k", self.loader, self.inner)
+        base = AbsSeq("sorted(execlist(e_k))", self.inner, length=self.eff.ghost["execlist"].length)
+        self.base = base
+        return AbsCat(base, [self.eff])
+
+    def check_step(self, it, env, seq, kind, elem, broke):
+        res = env.vars.get("res")
+        e = self.eff
+        inst = f"element={kind}"
+        parts = res.parts if isinstance(res, Tpl) else None
+        ok_pref = parts is not None and parts and isinstance(parts[0], Atom) and parts[0].kind == "prefix" and not broke
+        tail = Tpl(parts[1:]) if ok_pref else None
+        ne = e.ghost["nonempty"]
+
+        def show(a):
+            if a.kind == "fold":
+                return "<operands>" if a.meta.get("seq") is self.base else "<other-fold>"
+            return f"<{a.kind}:{a.tag}#{a.ordinal}>"
+        txt = tail.render(show) if tail is not None else None
+        want = "\n// <str:e_k#0>;\n<operands><init:e_k#1>\n"
+        self.oblige(it, "emit_stmt_blocks#loop.step: the effect's initialiser is obtained exactly once", inst, e.ghost.get("ninit", 0) == 1, detail=f"il_init_var() called {e.ghost.get('ninit', 0)} times")
+        self.oblige(it, "emit_stmt_blocks#loop.step: block = comment, the operands' initialisers in list order, then the effect's initialiser and a newline", inst,
+                    z3.Implies(ne, z3.BoolVal(txt == want)), detail=repr(txt))
+        self.oblige(it, "emit_stmt_blocks#loop.step: an effect without initialiser emits nothing (its operands are not declared either)", inst,
+                    z3.Implies(z3.Not(ne), z3.BoolVal(txt == "")), detail=repr(txt))
+        self.oblige(it, "emit_stmt_blocks#loop.step: the operand list is not re-computed while emitting", inst, e.ghost.get("nexec", 0) == 0)
+
+    def havoc_exit(self, it, env, seq):
+        env.vars["res"] = Tpl([Atom("res_all", 0, kind="prefix", meta={"all": True})])
+
+
+def gen_stmt_blocks_unbounded(loader, check):
+    T = loader.load(tkit.M_T).globals["RZILTransformer"]
+    check.instances_declared += 1
+
+    def setup(it):
+        t = tkit.mk_transformer(it)
+        h = t.fields["il_ops_holder"]
+        seq = AbsSeq("write_ops.values", StmtBuildLoop(loader))
+        it.ctx.assume(seq.length >= 0)
+        h.fields["write_ops"] = TableAbs(seq)
+        return {"t": t, "h": h}
+    ex = explore(loader, setup, lambda it, st: it.call(tkit.method(it, st["t"], "emit_stmt_blocks"), [st["h"], "RES0"], {}))
+    check.absorb(ex, "emit_stmt_blocks any table")
+    if ex.paths:
+        check.instances_generated += 1
+    seen = {}
+    for i, p in enumerate(ex.paths):
+        pi = f"table=any-size path={i}"
+        check.path_obligations(p, pi)
+        seen[p.outcome] = seen.get(p.outcome, 0) + 1
+        if p.outcome == "return":
+            r = p.value
+            ok = isinstance(r, Tpl) and len(r.parts) == 1 and isinstance(r.parts[0], Atom) and r.parts[0].meta.get("all")
+            check.ob("emit_stmt_blocks#emit.result-is-the-fold-over-all-statements", pi, p.ctx.pc, bool(ok), detail=repr(r))
+        elif p.outcome == "raise":
+            check.ob("emit_stmt_blocks#total", pi, p.ctx.pc, False, detail=f"raises {p.value!r}")
+    # 2 kinds collecting + (2 kinds x {empty, non-empty}) emitting + 2 x operand steps at least
+    check.ob("emit_stmt_blocks#loop.paths", "any", [], seen.get("loop-step", 0) >= 8 and seen.get("return", 0) >= 1, detail=str(seen))
 
 
 # ------------------------------------------------------------------------------------------ children are consumed
